@@ -3,13 +3,13 @@ use crate::util::Rng;
 use serde_json::Value;
 
 pub const LIB_NAME: &str = "m2";
-pub const LIB_TEXT: &str = "pub fn a(x) { x }\npub fn c() { 1 }\nfn p() { 2 }\npub type A { A(a: Int) C }\npub const k = 1\npub type T { W }\ntype P { Q }\npub type I = Int\npub type R { R(f: I) }\n";
+pub const LIB_TEXT: &str = "pub fn a(x) { x }\npub fn c() { 1 }\nfn p() { 2 }\npub type A { A(a: Int) C }\npub const k = 1\npub type T { W }\ntype P { Q }\npub type I = Int\npub type R { R(f: I) }\ntype N { M }\npub type M { N }\n";
 /// The second library module: its path shares the last segment with the first, it declares the same names (ids 3001..)
 /// in another order, and it uses them itself in the extra function `s` (so a rename has to edit uses inside the library too).
 pub const SUB_NAME: &str = "sub/m2";
 /// It also imports the first one and hands out a value of ITS record type (`mk`): a module that imports only `sub/m2` can then
 /// hold a record whose type and field `f` are declared in a module it does not import.
-pub const SUB_TEXT: &str = "import m2\npub const k = 2\npub type R { R(f: Int) }\npub type T { W }\npub fn c() { 3 }\ntype P { Q }\npub type A { C A(a: Int) }\nfn p() { 4 }\npub fn a(x) { x }\npub fn s(y: A) -> T { let _ = #(c(), a(k), A(a: 1), C, y, R(f: 2)) W }\npub fn mk() -> m2.R { m2.R(f: 1) }\n";
+pub const SUB_TEXT: &str = "import m2\npub type M { N }\ntype N { M }\npub const k = 2\npub type R { R(f: Int) }\npub type T { W }\npub fn c() { 3 }\ntype P { Q }\npub type A { C A(a: Int) }\nfn p() { 4 }\npub fn a(x) { x }\npub fn s(y: A) -> T { let _ = #(c(), a(k), A(a: 1), C, y, R(f: 2)) W }\npub fn mk() -> m2.R { m2.R(f: 1) }\n";
 
 /// The library modules of a GleamGen workspace: (module path, text, id of the module in the specification); the module with
 /// index i is FileId(1 + i).
@@ -40,6 +40,7 @@ pub fn lib_decls_of(lib: usize) -> Vec<(u64, usize, usize)> {
     if lib == 1 {
         v.push((base + 12, f("fn mk(", 3), 2));
     }
+    v.push((base + 13, f("type M { N }", 9), 1));
     v
 }
 
